@@ -15,6 +15,7 @@ def main():
         if a.startswith('--rlimit='): rl = float(a.split('=')[1])
         if a.startswith('--only='): only = BASE_VC + a.split('=')[1].split(',')
         if a.startswith('--specs='): specs = BASE_SPEC + a.split('=')[1].split(',')
+        if a.startswith('--cfg='): engine.ACTIVE_CFGS = engine.CFGS + ['feature="%s"' % f for f in a.split('=')[1].split(',')]
     if only is not None and specs is None: specs = BASE_SPEC
     patches = [a.split('=')[1] for a in sys.argv[1:] if a.startswith('--patch=')]
     def patch_fn(src):
